@@ -44,6 +44,15 @@ claim("C12", "Coq theorems for all inputs: strip/remove_cand (profile, tuple, si
       "add_missing; tie expansion = all linear orders once, equal weights, positional scores preserved; per-run correspondence incl. the cleaning-module functions.",
       COMMON_NOTE + "Cleaning-module functions (remove_noncands, deduplicate_profiles, remove_empty_ballots) are modelled and validated by correspondence; their theorems are listed in the evidence when present.")
 
+claim("C05", "Coq theorems for all score profiles, m, L, k: validation passes iff arguments and every ballot respect the limits (EValue for arguments, EType for ballots, precedence and first-offender order), totals = sum of weight x score, top-m election spec with exact ValueError characterisation, and the five wrapper classes equal GeneralRating at the documented (L,k) -- the wrapper theorems are stated over Generated/Wiring.v, which is regenerated from /repo/src on every build; per-run correspondence with boundary-violating ballots.",
+      COMMON_NOTE + "Wiring generator (harness/wiring_gen.py, fail-closed ast reader) is trusted to render what the wrappers forward.")
+claim("C09", "Coq theorems on arbitrary state lists: negative indices, IndexError exactly out of range, cumulative elected/eliminated/remaining/ranking/status closed forms and monotonicity, get_profile determined by the consumed script prefix and script-independent when no draw is consumed, one-shot rules: replayed profile has the remaining candidates and re-scores to the recorded tallies; per-run correspondence of random query histories on every rule with before/after deep comparison.",
+      COMMON_NOTE + "profile-candidates / re-scoring for multi-round rules are decided by the per-run oracle and correspondence (theorem proved for one-shot rules only). Known findings: PluralityVeto replay mutates the object; Alaska replay re-draws tiebreaks.")
+claim("C13", "Coq theorems over Generated/Wiring.v (regenerated from /repo/src each build): IRV = STV(m=1), SNTV = Plurality, SequentialRCV = STV with the full-weight transfer, STV defaults and quota formulas; TopTwo and Alaska unfolded into their documented compositions (iff), TopTwo winner = head-to-head first-preference winner of the top two, Alaska = Plurality(m_1) then STV(m_2) with consecutive round numbers; per-run correspondence plus differential runs inside the implementation under the same recorded random stream.",
+      COMMON_NOTE + "Known finding: Alaska's internal get_profile replay re-draws random tiebreaks and can raise KeyError.")
+claim("C20", "Coq theorems: one exact (iff) characterisation per documented precondition of the first error returned -- missing ranking, tied position, non-integer weights (PluralityVeto, random transfer), missing scores, m range (m = n accepted), Alaska stage order, score vector, rating limits, quota name, duplicate candidates -- and no partial result (sum type); generator-side checks (bloc proportions, cohesion rows, bloc names, overlapping intervals) are modelled and validated by correspondence; malformed-stream correspondence on every rule.",
+      COMMON_NOTE + "round(sum, 8) != 1 is modelled as |sum - 1| >= 5e-9 with generated cases kept clear of the boundary; the generator-side clauses have a model + correspondence but no separate theorem (they are direct boolean tests).")
+
 PENDING_REASON = "check under construction in this round (model/proofs being built); will be claimed once its check is live"
 
 checks = []
